@@ -121,7 +121,9 @@ func runC10(c *Check) {
 			// the value put is the encoding of this batch
 			for _, pn := range g.Select(isPut) {
 				v := ArgTerm(pn, 2)
-				if v != nil && strings.Contains(v.String(), "proto.Marshal(") && p.DeepContains(v, func(t *Term) bool { return t.Op == "field" && t.Name == "Transactions" && t.Args[0].String() == add.Params[2].Name() }, 2) {
+				if v != nil && strings.Contains(v.String(), "proto.Marshal(") && p.DeepContains(v, func(t *Term) bool {
+					return t.Op == "field" && t.Name == "Transactions" && t.Args[0].String() == add.Params[2].Name()
+				}, 2) {
 					c.OK("C10-R1", "AddBatch ⟂ Put-value=batch", fn, p.InstrPos(pn.In), "the stored value encodes the submitted batch's transactions", true)
 				} else {
 					c.Bad("C10-R1", "AddBatch ⟂ Put-value=batch", fn, p.InstrPos(pn.In), "the value written to the datastore is not the encoding of the submitted batch: "+trunc(v.String(), 120), nil)
